@@ -271,6 +271,7 @@ let run_bw (c : case) =
       (int_of_n (M.bw_heap_bytes (n_of_int osz) a)) osz;
     if String.contains c.ops 'T' then bw_table a c.kind;
     bw_cert "M" a c;
+    pr "MSAFE %d\n" (if M.bw_safe_b a then 1 else 0);
     if String.contains c.ops 'S' then bw_searches a c "";
     if String.contains c.ops 'K' then kindchk c.kind;
     if String.contains c.ops 'R' then begin
@@ -442,6 +443,7 @@ let cert_image (c : case) =
     let sv = M.vt_serializable (vtype_of c.vt) in
     match M.bw_deserialize sv (nlist (unhex_str c.imghex)) with
     | M.Ok (a, rest) ->
+      pr "ISAFE %d\n" (if M.bw_safe_b a then 1 else 0);
       if rest <> [] then pr "ICERT 0 0 trailing\n"
       else if a.M.bw_kind <> M.Standard then pr "ICERT - 0 notstandard\n"
       else (match spec_pvs c with
@@ -449,7 +451,7 @@ let cert_image (c : case) =
           | Some pvs ->
             let ok = M.bw_cert_ok zeqb a pvs in
             pr "ICERT %d %d\n" (if ok then 1 else 0) (int_of_n (M.bw_cert_count a pvs)))
-    | _ -> pr "ICERT 0 0 undecodable\n"
+    | _ -> pr "ISAFE 0\nICERT 0 0 undecodable\n"
   end
 
 let () =
